@@ -64,6 +64,13 @@ IsServerSalt(m, t) == /\ Marking(Keys[m].cls)
 
 InCache(m, t) == cache = "on" /\ <<Keys[m].name, t>> \in seen
 
+\* the whole decision of tcp.go:126-150 for an opener valid under key k with salt t, in the order of the code
+AuthOutcome(k, t) == LET m == Match(k) IN
+                       IF m = 0 THEN "ERR_CIPHER"
+                       ELSE IF IsServerSalt(m, t) THEN "ERR_REPLAY_SERVER"
+                       ELSE IF InCache(m, t) THEN "ERR_REPLAY_CLIENT"
+                       ELSE "OK"
+
 InFlight == Cardinality({c \in Conns : conn[c].ph \in {"hello", "keyfound", "saltok"}})
 
 \* a client may present any salt of the right size: a new one, one it (or another client) used before, or one it
